@@ -1343,6 +1343,46 @@ def oracle_abstract_interfaces(ctx, thorough):
     ctx.note("callback_dummies_checked", nchecked)
 
 
+FLATTEN_TYPES_YAML = """\
+library: lib
+declarations:
+- decl: class Cls
+  declarations:
+  - decl: void meth(int a0)
+- decl: namespace ns
+  options:
+    F_flatten_namespace: true
+  declarations:
+  - decl: class Cls
+    declarations:
+    - decl: void meth(int a0)
+"""
+
+
+def oracle_flatten_types(ctx):
+    """Derived types are module entities as well: classes of the same name folded into one Fortran module
+    (a class and a same-named class of a namespace flattened into that module) must not give two `type` of
+    one name (F_derived_name has no scope component)."""
+    from tools import shroudrun
+    d = common.scratch()
+    try:
+        path = shroudrun.write_yaml(d, "ft.yaml", FLATTEN_TYPES_YAML)
+        cfg, exc, out = shroudrun.run_inproc([path], d)
+        ctx.count(1)
+        if exc is not None:
+            return
+        for fn, data in shroudrun.read_tree(d).items():
+            if fn.endswith(".f"):
+                types = re.findall(r"^\s*type\s+(\w+)\s*$", data.decode().lower(), re.M)
+                dup = sorted({t for t in types if types.count(t) > 1})
+                if dup:
+                    ctx.fail("full:dup-derived-type:flatten-namespace", "classes of the same name in one Fortran module (class Cls and ns::Cls "
+                             "with F_flatten_namespace) give two derived types named %s in %s: F_derived_name is the lower-cased class "
+                             "name without scope" % (dup, fn), {"yaml": FLATTEN_TYPES_YAML})
+    finally:
+        common.rmtree(d)
+
+
 def gi_correspondence(ctx, drv):
     """Tie: the model's generic tables (driver op `gi`: module-level interfaces and type-bound generics per
     class, members with the preprocessor condition in force after the model's emission functions) vs the
@@ -1800,6 +1840,7 @@ def run(ctx):
         for i in range(2)]), "full")
     oracle_assumed_rank(ctx)
     oracle_abstract_interfaces(ctx, thorough)
+    oracle_flatten_types(ctx)
     ctx.note("full_generations", len(pick) + len(extra) + 3)
     if drv.available() and ok:
         gi_correspondence(ctx, drv)
